@@ -30,6 +30,48 @@ def build_fault_drivers():
     return dict(zip(check_seq.INSTANCES, exes[:-1])), exes[-1]
 
 
+def olc_fault_liveness(rep, tier, seed):
+    """C14's fault clause: every allocation-failure point of the C08 histories on the OLC index (single registered
+    thread); after each failed call the dump (scans both ways, gets) and all later operations must return --
+    a lock word left write-locked by the failed call makes the next operation through that node spin for ever
+    (the driver's per-operation watchdog turns that into exit 71).  Only hangs and deaths are judged here; the
+    recorded states are C08's subject."""
+    exes, _ = build_fault_drivers()
+    d = check_seq.trace_dir("C14")
+    runs, histories, ops = (2, 10, 50) if tier == "quick" else (12, 10, 150)
+    jobs = []
+    for (db, key), exe in exes.items():
+        if check_seq.DB_NAMES[db] != "olc_db":
+            continue
+        for r in range(runs):
+            s = seed * 1000 + r * 11 + db * 3 + key
+            jobs.append((db, key, exe, s, os.path.join(d, "f14_%d_%d_%d.ndjson" % (db, key, s))))
+
+    def work(job):
+        db, key, exe, s, out = job
+        cmd = [exe, "--seed", str(s), "--histories", str(histories), "--ops", str(ops), "--faults", "--out", out]
+        try:
+            p = subprocess.run(cmd, capture_output=True, text=True, timeout=900)
+            rc, err = p.returncode, p.stderr[-800:]
+        except subprocess.TimeoutExpired:
+            rc, err = -999, "timeout"
+        nfail = 0
+        if os.path.exists(out):
+            with open(out) as f:
+                nfail = sum(1 for ln in f if ln.startswith('{"e":"fail"'))
+            os.unlink(out)
+        return job, rc, err, nfail
+    total = 0
+    for job, rc, err, nfail in vlib.parallel_map(work, jobs, workers=vlib.NCPU):
+        db, key, exe, s, out = job
+        total += nfail
+        if rc != 0:
+            rep.violation("olc_db<%s> seed %d: after an injected allocation failure an operation did not return / the driver died (rc=%s): %s"
+                          % (check_seq.KEY_NAMES[key], s, rc, err[-300:]), {"seed": s, "stderr": err})
+    return {"fault_points_followed_by_dump_and_further_operations": total, "runs": len(jobs),
+            "rule": "C08's fault enumeration on olc_db (single registered thread); judged here: every operation after a failed call returns"}
+
+
 def run(prop, tier, seed):
     t0 = time.time()
     rep = vlib.Report(prop)
